@@ -208,6 +208,14 @@ func TestVerifC07(t *testing.T) {
 			}
 			c.Count("tok:"+strings.SplitN(tk.desc, " ", 2)[0], 1)
 		}
+		if ok {
+			// at the end, every page of the browser history (not just the one on screen) holds at every loaded position what the
+			// model's page holds there: nothing was loaded into the wrong page, twice, or out of order
+			x.settle(30 * time.Second)
+			if d := pagesAgainstModel(c, x, m); d != "" {
+				fail("page-content", "at the end of the session: %s", d)
+			}
+		}
 		if p := m.page(); p != nil {
 			if p.list {
 				c.Count("ended_on_list_page", 1)
@@ -223,4 +231,31 @@ func TestVerifC07(t *testing.T) {
 			c.Sample(map[string]any{"entry": entry.ID, "anomaly_percent": o.Anomaly, "first_keys": t, "final_model_state": m.describe()})
 		}
 	}
+}
+
+func pagesAgainstModel(c *ev.Ctx, x *session, m *model) string {
+	x.s.m.Lock()
+	defer x.s.m.Unlock()
+	if x.s.h.VerifLen() != len(m.hist) {
+		return "" // reported by compare
+	}
+	for i, mp := range m.hist {
+		p := x.s.h.VerifAt(i)
+		lo, hi := p.feed.VerifBounds()
+		for pos := lo + 1; pos < hi; pos++ {
+			it, present := p.feed.VerifItem(pos)
+			if !present {
+				continue // list pages have no position 0
+			}
+			want := mp.at(pos)
+			if want == nil {
+				return fmt.Sprintf("history page %d holds %s at position %d, the model's page has nothing there", i, wk.Key(it), pos)
+			}
+			if wk.Key(it) != want.Key() {
+				return fmt.Sprintf("history page %d holds %s at position %d, the model's page has %s there", i, wk.Key(it), pos, want.Key())
+			}
+			c.Count("page_positions_checked_at_end", 1)
+		}
+	}
+	return ""
 }
